@@ -44,6 +44,7 @@ Hypothesis predict_zero : predict 0 = 0.
 
 Notation GIl := (GIl predict).
 Notation TI := (TI predict).
+Notation truthful_lt := (truthful_lt predict).
 
 (* the optional rollback at the start of handle_rollback_and_save, seen from the game's history *)
 Lemma first_gi : forall p gs L cf o p2 o2 G,
@@ -58,12 +59,13 @@ Lemma first_gi : forall p gs L cf o p2 o2 G,
   PNl (s_current (ps_sync p)) (s_queues (ps_sync p)) gs ->
   exists R, o_requests o2 = o_requests o ++ R /\
     GIl (s_current (ps_sync p)) (replay_hist G R) (s_queues (ps_sync p2)) gs /\
-    glen (replay_hist G R) = s_current (ps_sync p) /\ PNl (s_current (ps_sync p)) (s_queues (ps_sync p2)) gs.
+    glen (replay_hist G R) = s_current (ps_sync p) /\ PNl (s_current (ps_sync p)) (s_queues (ps_sync p2)) gs /\
+    Forall (truthful_lt (s_current (ps_sync p)) gs) (adv_frames G R).
 Proof.
   intros p gs L cf o p2 o2 G E Hsp Hcon Hlen HQ HLS HL Hfi HG HGI HPN.
   destruct (_ =? NULL).
-  - injection E as <- <-. exists []. rewrite app_nil_r. cbn [replay_hist].
-    split; [reflexivity|]. split; [exact HGI|]. split; [exact HG|exact HPN].
+  - injection E as <- <-. exists []. rewrite app_nil_r. cbn [replay_hist adv_frames].
+    split; [reflexivity|]. split; [exact HGI|]. split; [exact HG|]. split; [exact HPN|constructor].
   - apply res_bind_ok in E. destruct E as ([p3 o3] & Ea & E). injection E as <- <-.
     cbn [with_disc_frame ps_sync].
     apply (adjust_gi_gen predict predict_idem p gs L _ cf o p3 o3 G Ea Hcon Hlen HQ); rewrite ?Hsp; try assumption.
@@ -81,19 +83,20 @@ Lemma check_gi : forall p gs L S cf o p1 o1 G,
   PNl (s_current (ps_sync p)) (s_queues (ps_sync p)) gs ->
   exists R, o_requests o1 = o_requests o ++ R /\
     GIl (s_current (ps_sync p)) (replay_hist G R) (s_queues (ps_sync p1)) gs /\
-    glen (replay_hist G R) = s_current (ps_sync p) /\ PNl (s_current (ps_sync p)) (s_queues (ps_sync p1)) gs.
+    glen (replay_hist G R) = s_current (ps_sync p) /\ PNl (s_current (ps_sync p)) (s_queues (ps_sync p1)) gs /\
+    Forall (truthful_lt (s_current (ps_sync p)) gs) (adv_frames G R).
 Proof.
   intros p gs L S cf o p1 o1 G E Hsp Hcon Hlen HQ Hcl HLS HL HG HGI HPN.
   unfold check_last_saved_state in E.
   destruct (_ <? ps_maxpred p).
-  - injection E as <- <-. exists []. rewrite app_nil_r. cbn [replay_hist].
-    split; [reflexivity|]. split; [exact HGI|]. split; [exact HG|exact HPN].
+  - injection E as <- <-. exists []. rewrite app_nil_r. cbn [replay_hist adv_frames].
+    split; [reflexivity|]. split; [exact HGI|]. split; [exact HG|]. split; [exact HPN|constructor].
   - apply res_bind_ok in E. destruct E as ([p3 o3] & E3 & E). destruct (negb _); [discriminate|]. injection E as <- <-.
     destruct (_ <=? cf).
     + apply res_bind_ok in E3. destruct E3 as ([s3 r] & Es & E3). injection E3 as <- <-.
       destruct (save_current_state_inv _ _ _ Es) as (_ & -> & _ & Hq3 & _).
-      exists [RSave (s_current (ps_sync p))]. cbn [add_req o_requests replay_hist with_sync ps_sync]. rewrite Hq3.
-      split; [reflexivity|]. split; [exact HGI|]. split; [exact HG|exact HPN].
+      exists [RSave (s_current (ps_sync p))]. cbn [add_req o_requests replay_hist adv_frames with_sync ps_sync]. rewrite Hq3.
+      split; [reflexivity|]. split; [exact HGI|]. split; [exact HG|]. split; [exact HPN|constructor].
     + apply (adjust_gi_gen predict predict_idem p gs L S cf o p3 o3 G E3 Hcon Hlen HQ); rewrite ?Hsp; try assumption.
       eapply Forall_impl; [|exact Hcl]. cbv beta. intros q Hq. left. exact Hq.
 Qed.
@@ -121,7 +124,7 @@ Proof.
     destruct (Forall_Exists_both _ _ _ X4 Hex2) as (g0 & G1 & G2). lia. }
   destruct (sparse_first_progress predict p gs g w d o cf HQS HJS HSX HS0 HLcf HScf)
     as (p2 & o2 & E2 & Hshape2 & HQ2 & Hcl2 & Hsu2 & HL2 & Hc2 & Hst2 & Hidle2 & HLS2 & HS2 & HScf2 & g2 & Hgf2 & Hcells2).
-  destruct (first_gi p gs _ cf o p2 o2 G E2 Hsp Hconn ltac:(lia) HQ X3 ltac:(lia) X5 HG HGI HPN) as (R1 & Ho2 & HGI2 & HG2 & HPN2).
+  destruct (first_gi p gs _ cf o p2 o2 G E2 Hsp Hconn ltac:(lia) HQ X3 ltac:(lia) X5 HG HGI HPN) as (R1 & Ho2 & HGI2 & HG2 & HPN2 & HTR2).
   assert (Hsp2 : ps_sparse p2 = true) by (rewrite Hshape2; cbn; exact Hsp).
   assert (Hmpp2 : ps_maxpred p2 = w) by (rewrite Hshape2; cbn; exact Hw2).
   assert (Hmp2 : s_maxpred (ps_sync p2) = w) by (destruct Hcells2 as (X & _); exact X).
@@ -134,10 +137,11 @@ Proof.
   rewrite Er in Er'. injection Er' as <- <-.
   rewrite <- Hc2 in HQ2, HG2, HGI2, HPN2.
   destruct (check_gi p2 gs _ _ cf o2 p1 o1 (replay_hist G R1) E1 Hsp2 Hcon2 Hlen2 HQ2 Hcl2 HLS2 ltac:(lia) HG2 HGI2 HPN2)
-    as (R2 & Ho1 & HGI1 & HG1 & HPN1).
-  rewrite Hc2 in HGI1, HG1, HPN1.
+    as (R2 & Ho1 & HGI1 & HG1 & HPN1 & HTR1).
+  rewrite Hc2 in HGI1, HG1, HPN1, HTR1.
   exists p1, o1, (R1 ++ R2). split; [exact HR|]. split; [rewrite Ho1, Ho2, app_assoc; reflexivity|].
-  rewrite replay_hist_app. split; [exact HGI1|]. split; [exact HG1|exact HPN1].
+  rewrite replay_hist_app. split; [exact HGI1|]. split; [exact HG1|]. split; [exact HPN1|].
+  rewrite adv_frames_app. apply Forall_app. split; [exact HTR2|exact HTR1].
 Qed.
 
 (* the cells invariant of sparse saving, as the generic run theorems want it *)
@@ -169,7 +173,8 @@ Lemma sparse_advance_timeline : forall p gs g w d p' o r G,
   advance predict p = Ok (p', o, r) ->
   QSg true w d p gs -> CIs w p g -> Forall (fun c => cs_last c < I32MAX) (ps_status p) -> TI p gs G ->
   exists gs', QSg true w d p' gs' /\ TI p' gs' (replay_hist G (o_requests o)) /\
-    hist_step d (ps_pending p) (local_handles p) gs gs' /\ ps_kinds p' = ps_kinds p /\ spec_step p gs o p'.
+    hist_step d (ps_pending p) (local_handles p) gs gs' /\ ps_kinds p' = ps_kinds p /\ spec_step p gs o p' /\
+    Forall (truthful_lt (s_current (ps_sync p')) gs') (adv_frames G (o_requests o)).
 Proof.
   intros p gs g w d p' o r G E HQS (HJS & HXs) Hbnd HTI.
   pose proof (SX_of_SXs _ _ _ _ _ HQS HXs) as HSX.
@@ -177,7 +182,7 @@ Proof.
   destruct Hw as (Hw1 & Hw2 & Hw3). destruct Hmode as (Hrun & Hsp & Hdf). destruct Hfr as (HfL & Hfc & Hfw).
   unfold advance in E. rewrite Hrun in E. cbn [negb] in E.
   destruct (forallb _ (local_handles p)) eqn:Efa; cbn [negb] in E.
-  2:{ injection E as <- <- <-. exists gs. split; [exact HQS|]. split; [exact HTI|]. split; [apply hist_step_refl|]. split; [reflexivity|apply spec_step_none; [exact Hsok|reflexivity..]]. }
+  2:{ injection E as <- <- <-. exists gs. split; [exact HQS|]. split; [exact HTI|]. split; [apply hist_step_refl|]. split; [reflexivity|]. split; [apply spec_step_none; [exact Hsok|reflexivity..]|constructor]. }
   assert (Hpend : forall h, In h (local_handles p) -> exists pi, assoc_get (ps_pending p) h = Some pi).
   { intros h Hin. rewrite forallb_forall in Efa. specialize (Efa h Hin).
     destruct (assoc_get (ps_pending p) h); [eauto|discriminate]. }
@@ -188,7 +193,8 @@ Proof.
                      0 <= s_last_saved (ps_sync p1) /\ ps_status p1 = ps_status p /\
                      local_handles p1 = local_handles p /\ ps_pending p1 = ps_pending p /\ ps_remotes p1 = ps_remotes p /\
                      TI p1 gs G /\ (forall G0, replay_hist G0 (o_requests o1) = G0) /\ ps_kinds p1 = ps_kinds p /\
-                     ps_next_spec p1 = ps_next_spec p /\ ps_spectators p1 = ps_spectators p /\ o_spec_sends o1 = []).
+                     ps_next_spec p1 = ps_next_spec p /\ ps_spectators p1 = ps_spectators p /\ o_spec_sends o1 = [] /\
+                     (forall G0, adv_frames G0 (o_requests o1) = [])).
   { destruct HSX as [X1 X2 X3 X4 X5].
     destruct (Z.eqb_spec (s_current (ps_sync p)) 0) as [Ec|Ec]; cbn [andb].
     - destruct HJS as [Jw Jmp Jsp Jfr Jcur Jcells].
@@ -196,7 +202,7 @@ Proof.
         [|unfold save_current_state in Es; rewrite Ec in Es; discriminate..].
       destruct (sp_save w _ g s1 r0 Jcells ltac:(lia) Jfr Es) as (-> & g1 & _ & Hh1 & Hcl1 & Hc1 & Hsv1 & Hq1 & HL1).
       cbn [res_bind]. exists (with_sync p s1), (add_req out0 (RSave (s_current (ps_sync p)))), g1.
-      split; [reflexivity|]. split; [|split; [|split; [|cbn [with_sync ps_sync ps_status ps_pending ps_remotes ps_kinds ps_next_spec ps_spectators add_req out0 o_requests o_spec_sends replay_hist];
+      split; [reflexivity|]. split; [|split; [|split; [|cbn [with_sync ps_sync ps_status ps_pending ps_remotes ps_kinds ps_next_spec ps_spectators add_req out0 o_requests o_spec_sends replay_hist adv_frames];
                                                        rewrite Hsv1; split; [lia|]; split; [reflexivity|]; split; [reflexivity|]; split; [reflexivity|]; split; [reflexivity|]; split; [|repeat split]]]].
       + apply (QS_same_queues true); [exact HQS| |exact Hq1|exact Hc1|exact HL1].
         destruct Hcl1 as (M & _). rewrite M. symmetry. exact Hw3.
@@ -214,17 +220,18 @@ Proof.
       split; [constructor; assumption|]. split.
       { destruct (Z.eq_dec (s_last_saved (ps_sync p)) NULL) as [En|En]; [specialize (X2 En); lia|unfold NULL in En; lia]. }
       split; [reflexivity|]. split; [reflexivity|]. split; [reflexivity|]. split; [reflexivity|]. split; [exact HTI|]. split; [intros G0; reflexivity|repeat split]. }
-  destruct Hfirst as (p1 & o1 & g1 & E1 & HQS1 & HJS1 & HSX1 & HS1 & Hst1 & Hlh1 & Hpe1 & Hrm1 & HTI1 & Hrep1 & Hkk1 & Hns1 & Hss1 & Hos1).
+  destruct Hfirst as (p1 & o1 & g1 & E1 & HQS1 & HJS1 & HSX1 & HS1 & Hst1 & Hlh1 & Hpe1 & Hrm1 & HTI1 & Hrep1 & Hkk1 & Hns1 & Hss1 & Hos1 & Hadv1).
   rewrite E1 in E. cbn [res_bind] in E.
   rewrite (update_disconnects_noop p1) in E; [|rewrite Hst1; exact Hconn|rewrite Hrm1; exact Hgos]. cbn [res_bind] in E.
   destruct (advance_rollback_frame predict p1 o1) as [[p3 o3]| |] eqn:E3; cbn [res_bind] in E; try discriminate.
   injection E as <- <- <-.
   assert (Hbnd1 : Forall (fun c => cs_last c < I32MAX) (ps_status p1)) by (rewrite Hst1; exact Hbnd).
   destruct (advance_rollback_timeline_gen predict predict_idem true p1 gs w d o1 p3 o3 G E3 HQS1 Hbnd1)
-    as (gs' & R & Ho & HQS' & HTI' & Hh' & Hkk' & cf & Ecf & Hsent & Hns' & Hss'); [| |exact HTI1|].
+    as (gs' & R & Ho & HQS' & HTI' & Hh' & Hkk' & HTR' & cf & Ecf & Hsent & Hns' & Hss'); [| |exact HTI1|].
   { intros h Hin. rewrite Hpe1. apply Hpend. rewrite <- Hlh1. exact Hin. }
   { intros cf Ecf HLcf _. exact (sparse_rollback_ti p1 gs g1 w d o1 cf G HQS1 HJS1 HSX1 HS1 Ecf HLcf Hbnd1 HTI1). }
   exists gs'. split; [exact HQS'|]. split; [rewrite Ho, replay_hist_app, Hrep1; exact HTI'|]. split; [rewrite <- Hpe1, <- Hlh1; exact Hh'|]. split; [congruence|].
+  split; [|rewrite Ho, adv_frames_app, Hadv1, Hrep1; exact HTR'].
   apply (spec_sent_step predict predict_idem p gs cf); [exact Hsok| |congruence| |].
   - apply (cf_bound predict predict_idem _ w d p gs cf HQS). unfold confirmed_frame in *. rewrite <- Hst1. exact Ecf.
   - rewrite Hsent, Hos1. unfold spec_sent. rewrite Hss1, Hns1. reflexivity.
@@ -242,5 +249,12 @@ Definition sparse_held_inputs_step :=
   held_inputs_step_g predict predict_idem predict_zero true CIs sparse_CI_step sparse_advance_timeline sparse_CI_frame sparse_CI_start.
 Definition sparse_host_broadcast_is_confirmed_timeline :=
   host_broadcast_is_confirmed_timeline_g predict predict_idem predict_zero true CIs sparse_CI_step sparse_advance_timeline sparse_CI_frame sparse_CI_start.
+
+Definition sparse_invariants_reachable :=
+  invariants_reachable_g predict predict_idem predict_zero true CIs sparse_CI_step sparse_advance_timeline sparse_CI_frame sparse_CI_start.
+Definition sparse_requests_truthful_step :=
+  requests_truthful_step_g predict predict_idem predict_zero true CIs sparse_CI_step sparse_advance_timeline sparse_CI_frame sparse_CI_start.
+Definition sparse_confirmed_frame_monotone :=
+  confirmed_frame_monotone_g predict predict_idem predict_zero true CIs sparse_CI_step sparse_advance_timeline sparse_CI_frame sparse_CI_start.
 
 End SparseTimeline.
